@@ -26,6 +26,12 @@ and fed to the model)
                        closes; the half-closed side reads it with `seg2` / `bufs2`.  `eof` / `last`
                        then describe the transport of the response (the request's transport never
                        ends).  The two directions are judged independently by the same spec.
+             `to=<k>,..` read time-outs (not with last / hc / gate=1): the reader's transport stalls
+                       after k bytes of the stream, for each k (increasing offsets; others are
+                       ignored): the transport Read that finds nothing returns a time-out (what a
+                       blocked Read returns when the read deadline fires), the reader extends its
+                       deadline, the rest arrives and it reads on.  The pieces between the stalls
+                       are each cut by `seg`.  Reads that timed out are reported as `<n>/to`.
   observed : `[bs0=<n> ps0=<n> pre=<header lengths of the kept-back handshake records>|-
               hs=<ok|eof|other: the reader's handshake, when gate=1>|-]
               n=<write returns> recs=<header lengths> pl=<plaintext lengths>|?
@@ -35,6 +41,7 @@ and fed to the model)
 import Gotlcp.Oracle.Common
 import Gotlcp.Model.RecordTxFacts
 import Gotlcp.Model.RecordRxFacts
+import Gotlcp.Model.RecordRxStall
 import Gotlcp.Spec.StreamSpec
 
 namespace Gotlcp.Oracle.C06
@@ -111,6 +118,39 @@ def showEnd : Option RxErr → String
   | some .eof => "eof"
   | some _ => "other"
 
+/-- on a stalling transport the reader reports its time-outs as such -/
+def showEndS : Option RxErr → String
+  | some .timeout => "to"
+  | e => showEnd e
+
+/-- the stall offsets that count: increasing, inside the stream -/
+def stallOffsets (offs : List Nat) (n : Nat) : List Nat :=
+  (offs.foldl (fun (acc : List Nat × Nat) k => if k > acc.2 && k < n then (acc.1 ++ [k], k) else acc) ([], 0)).1
+
+/-- the stream cut at the stall offsets, every piece chunked by `seg` -/
+def stallSegments (seg : List Nat) (offs : List Nat) (w : Bytes) : List (List Bytes) :=
+  let rec go (prev : Nat) : List Nat → List (List Bytes)
+    | [] => [chunkBy seg (w.drop prev)]
+    | k :: ks => chunkBy seg ((w.take k).drop prev) :: go k ks
+  go 0 (stallOffsets offs w.length)
+
+/-- `readLoop` on a stalling transport: after a time-out the reader extends its deadline and reads on -/
+partial def readLoopS (dec : RecordRx.Dec) (bufs : List Nat) (cap : Nat) (t : RecordRx.Stalled) :
+    Array (Bytes × Option RxErr) :=
+  let bufs := if bufs.isEmpty then [1024] else bufs
+  let rec go (t : RecordRx.Stalled) (bs : List Nat) (left : Nat) (extra : Bool) (acc : Array (Bytes × Option RxErr)) :
+      Array (Bytes × Option RxErr) :=
+    if left == 0 then acc
+    else match bs with
+      | [] => go t bufs left extra acc
+      | n :: bs' =>
+        let r := t.read factsRx dec n
+        let acc := acc.push (r.1, r.2.1)
+        if r.2.1 == some .timeout then go r.2.2.extend bs' (left - 1) extra acc
+        else if r.2.1.isSome then (if extra then acc else go r.2.2 bs' (left - 1) true acc)
+        else go r.2.2 bs' (left - 1) extra acc
+  go t bufs cap false #[]
+
 /-- reads cycling through `bufs` until the first error, then one more; bounded by `cap` -/
 partial def readLoop (dec : RecordRx.Dec) (bufs : List Nat) (cap : Nat) (s : Rx) :
     Array (Bytes × Option RxErr) :=
@@ -165,7 +205,7 @@ def parseReads (s : String) : Option (List (Nat × Spec.Stream.REnd)) :=
   if s == "-" then some [] else
   (s.splitOn ",").mapM fun t =>
     match t.splitOn "/" with
-    | [a, e] => a.toNat?.map fun n => (n, if e == "ok" then .ok else if e == "eof" then .eof else .other)
+    | [a, e] => a.toNat?.map fun n => (n, if e == "ok" then .ok else if e == "eof" then .eof else if e == "to" then .timeout else .other)
     | _ => none
 
 /-- cut `data` into pieces of the given lengths -/
@@ -190,7 +230,7 @@ reaches the reader's transport cut by `seg`/`last`, the end reported with the la
 reads), reads with `bufs`.  `none` = the sender model is stuck. -/
 def predictDir (k : Kind) (dyn : Nat) (bs ps : Nat) (ws : List Bytes) (close : Nat)
     (seg : List Nat) (last : Nat) (eof : Bool) (bufs : List Nat) (total : Nat) (gate : Bool)
-    (prep : Rx → Rx) (plKnown : Bool) : Option DirModel :=
+    (prep : Rx → Rx) (plKnown : Bool) (stalls : Option (List Nat) := none) : Option DirModel :=
   match RecordTx.writes factsTx (dyn == 0) k ⟨bs, ps⟩ ws with
   | none => none
   | some (recs, ns, _) =>
@@ -210,14 +250,17 @@ def predictDir (k : Kind) (dyn : Nat) (bs ps : Nat) (ws : List Bytes) (close : N
         match RecordRx.readLastFlight factsRx factsHs (unprotect k) (fun _ => true) { io := io } with
         | (e, s1) => (showEnd e, RecordRx.finishHandshake s1)
       else ("-", { io := io })
-    let outs := (readLoop (unprotect k) bufs (readCap total) (prep start)).toList
-    let rd := if outs.isEmpty then "-" else ",".intercalate (outs.map fun (x : Bytes × Option RxErr) => s!"{x.1.length}/{showEnd x.2}")
+    let outs := match stalls with
+      | none => (readLoop (unprotect k) bufs (readCap total) (prep start)).toList
+      | some offs => (readLoopS (unprotect k) bufs (readCap total) (RecordRx.Stalled.start (stallSegments seg offs wire) eof)).toList
+    let shw := if stalls.isSome then showEndS else showEnd
+    let rd := if outs.isEmpty then "-" else ",".intercalate (outs.map fun (x : Bytes × Option RxErr) => s!"{x.1.length}/{shw x.2}")
     some { hs := hs, finLen := finBody.length, n := showNats ns, recs := showNats (bodies.map (·.length)),
            pl := if plKnown then showNats (recs.map (·.length)) else "?", reads := rd,
            data := Hex.encode (outs.map (·.1)).flatten }
 
 /-- the spec on one direction as observed (`sfx` = "" or "2": which observation keys) -/
-def specDir (ot : List String) (sfx : String) (ws : List Bytes) (k : Kind) (close : Nat) : Option (String × String) :=
+def specDir (ot : List String) (sfx : String) (ws : List Bytes) (k : Kind) (close : Nat) (stalls : Nat := 0) : Option (String × String) :=
   match (kv ot ("n" ++ sfx)).bind parseNats, (kv ot ("recs" ++ sfx)).bind parseNats, kv ot ("pl" ++ sfx),
       (kv ot ("reads" ++ sfx)).bind parseReads, kvHex ot ("data" ++ sfx) with
   | some ns, some recs, some pl, some rds, some data =>
@@ -228,7 +271,7 @@ def specDir (ot : List String) (sfx : String) (ws : List Bytes) (k : Kind) (clos
     | none => some ("shape", "unparseable pl")
     | some plain =>
       Spec.Stream.check { writes := ws, returned := ns, mode := specMode k, wireLens := wireLens, plainLens := plain,
-                          reads := (cutBy (rds.map (·.1)) data).zip (rds.map (·.2)) }
+                          reads := (cutBy (rds.map (·.1)) data).zip (rds.map (·.2)), stalls := stalls }
   | _, _, _, _, _ => some ("shape", "unparseable observation")
 
 def judgeStream (ct : List String) (o : String) : Option Verdict := do
@@ -267,9 +310,16 @@ def judgeStream (ct : List String) (o : String) : Option Verdict := do
     | some a, some b => s!"bs2={a} ps2={b} "
     | _, _ => ""
   let plKnown := (kv ot "pl") != some "?"
+  -- read time-outs: only on a plain one-directional run
+  let stalls : Option (List Nat) := if hc || gate || last != 0 then none else (kv ct "to").bind parseNats
+  -- the spec counts the stalls of the transport from the bytes on the wire as observed
+  let wireLen := (((kv ot "recs").bind parseNats).getD []).foldl (fun a n => a + n + 5) 0
+  let nStalls := match stalls with
+    | some offs => (stallOffsets offs wireLen).length
+    | none => 0
   let model : String :=
     -- the request's transport does not end, so `eof`/`last` describe the response's when hc=1
-    match predictDir k dyn bs ps ws close seg (if hc then 0 else last) (eof && !hc) bufs total gate id plKnown with
+    match predictDir k dyn bs ps ws close seg (if hc then 0 else last) (eof && !hc) bufs total gate id plKnown stalls with
     | none => "stuck"
     | some d =>
       let pre := if e2e then s!"{pre}pre={if gate then showNats [1, d.finLen] else "-"} hs={d.hs} " else pre
@@ -286,7 +336,7 @@ def judgeStream (ct : List String) (o : String) : Option Verdict := do
     if (kv ot "handshake").isSome then some ("handshake", "the honest handshake before the stream failed") else
     if gate && (kv ot "hs") != some "ok" then
       some ("handshake", "the reader's handshake failed on an honest last flight that arrived together with application data") else
-    match specDir ot "" ws k close with
+    match specDir ot "" ws k close nStalls with
     | some f => some f
     | none =>
       if !hc then none else
